@@ -18,6 +18,9 @@ ASSUMPTIONS = ['reference interpreters A and B (ypv/refA.py, ypv/refB.py) implem
                'cases where any unification is subject to occurs check are discarded (sto)',
                'answer sequences are compared up to the first 60 answers',
                'engine termination bound: 2000 x reference steps + 100000 engine events']
+RULE_ADDED = (' Added after the rounds of independently written changes (DESIGN.md 12.2): ' +
+              "fact tables of 1100-1300 atoms; queries with up to 2200 answers, all compared; lists of 15-129 elements in the templates; a chain-building template (one variable-to-variable link per recursion level, up to 40 levels); record-style predicates of arity 9-16 with repeated variables at direct argument positions; confusable twins (f(X) next to f('X')).")
+RULE = RULE + RULE_ADDED
 
 
 # ---- bounded-exhaustive slice (thorough): all programs of <= 2 facts p(T1,T2) over a 6-term universe, seen through
